@@ -250,3 +250,12 @@ package font
 //@   loop 3:
 //@     invariant len(endCode) == segCount && len(startCode) == segCount && !isnil(tt.cmapTable) && c >= 0
 //@     decreases endCode[i] + 1 - c
+
+// ---- C07: the simple-font base encoding is the one the font dictionary names: /Encoding as a name, or the
+// /BaseEncoding of an encoding dictionary; WinAnsi only when neither is given ----
+//@ func (*TrueTypeFont) parseEncoding results (err)
+//@   property C07
+//@   flags nosafety
+//@   atreturn#1 default_without_an_encoding_entry: tt.Encoding == "WinAnsiEncoding"
+//@   atreturn#3 named_encoding: istype(encodingObj, core.Name) && sameseq(tt.Encoding, astype(encodingObj, core.Name))
+//@   atreturn#4 base_encoding_of_the_dictionary: istype(encodingObj, core.Dict) && (isnil(astype(encodingObj, core.Dict).Get("BaseEncoding")) ==> tt.Encoding == "WinAnsiEncoding") && (istype(astype(encodingObj, core.Dict).Get("BaseEncoding"), core.Name) ==> sameseq(tt.Encoding, astype(astype(encodingObj, core.Dict).Get("BaseEncoding"), core.Name)))
